@@ -20,7 +20,7 @@ RULE = (
     "recommendation must be bit-identical, and the domain object handed to the algorithm must afterwards equal a deep copy taken "
     "before construction in values, element types and inner-list identity. subcheck 'interleave': a Hypothesis RuleBasedStateMachine "
     "holds two independently constructed instances (RNG-free algorithms on RNG-free partitions) and Hypothesis chooses the "
-    "interleaving of step_A / step_B; each instance's sequence must equal the one it produces alone. subcheck 'process' : the same "
+    "interleaving of whole rounds (step_A / step_B) and of split rounds (pull_A ... calls on B ... receive_A); each instance's sequence must equal the one it produces alone. subcheck 'process' : the same "
     "case is run in fresh subprocesses under PYTHONHASHSEED in {0, 1, 12345}, one of them after allocating garbage (shifts object ids), "
     "and once more inside the worker itself right after a 'polluter' instance of the same algorithm class on another domain (the "
     "worker has run hundreds of other instances by then); all outputs must be identical. non-trivial = >= 20 rounds, point-dependent rewards and (interleave) >= 5 switches between the two "
@@ -67,6 +67,18 @@ def first_diff(a, b):
 
 def check_repeat(case):
     classes = ["algo:" + algo_label(case["algo"]), "part:" + case["partition"]["cls"], "law:" + case["reward"].get("law", "noise")]
+    if case.get("descending"):
+        # the library's own tests hand partitions a range written high-to-low ([-5, -10]); whatever the code
+        # makes of it, the user's list must not be rewritten.  Only the domain clause is judged here.
+        c = copy.deepcopy(case)
+        k = case["descending"] % len(c["domain"])
+        c["domain"][k] = [c["domain"][k][1], c["domain"][k][0]]
+        c["T"] = min(c["T"], 5)
+        a = trace(c)
+        classes.append("descending-range")
+        if a["domain"]:
+            return Outcome(violation={"clause": "domain-mutated", "msg": "the user's domain object was modified: %s" % a["domain"], "round": None}, classes=classes)
+        return Outcome(nontrivial=False, classes=classes, rounds=len(a["points"]))
     a = trace(case)
     b = trace(case)
     if a["domain"] or b["domain"]:
@@ -98,9 +110,19 @@ def run_interleaved(caseA, caseB, schedule):
         try:
             sess["A"].construct()
             sess["B"].construct()
-            for who in schedule:
+            pending = {}
+            for tok in schedule:
+                who = {"A": "A", "a": "A", "x": "A", "B": "B", "b": "B", "y": "B"}[tok]
                 s = sess[who]
-                pt, r = s.step()
+                if tok in "AB":
+                    pt, r = s.step()
+                elif tok in "ab":  # pull only; the reward arrives later, after calls on the other instance
+                    pt = s.pull()
+                    pending[who] = (pt, s.reward_for(pt))
+                    continue
+                else:
+                    pt, r = pending.pop(who)
+                    s.receive(r)
                 pts[who].append([repr(x) for x in pt] if isinstance(pt, list) else repr(pt))
         except Exception as e:  # noqa: BLE001
             return pts["A"], pts["B"], type(e).__name__
@@ -123,7 +145,10 @@ def check_interleave(case):
         if d:
             return Outcome(violation={"clause": "instances-interfere", "msg": "instance %s (%s), its round %d: alone %r, interleaved %r" % (
                 who, algo_label(c["algo"]), d[0], d[1], d[2]), "round": d[0]}, classes=classes)
-    switches = sum(1 for x, y in zip(sched, sched[1:]) if x != y)
+    owner = [{"A": "A", "a": "A", "x": "A", "B": "B", "b": "B", "y": "B"}[t] for t in sched]
+    switches = sum(1 for x, y in zip(owner, owner[1:]) if x != y)
+    if any(t in "abxy" for t in sched):
+        classes.append("split-round-interleaving")
     pd = all(c["reward"].get("law") in ("peak", "peakpos", "bump") for c in (A, B))
     if switches >= 5:
         classes.append("switches>=5")
@@ -154,6 +179,7 @@ def make_machine(col, sub):
             self.stack = contextlib.ExitStack()
             self.sess = {}
             self.pts = {"A": [], "B": []}
+            self.pending = {}
             self.dead = None
 
         @initialize(data=st.data())
@@ -185,19 +211,66 @@ def make_machine(col, sub):
             except Exception as e:  # noqa: BLE001
                 self.dead = "exception:" + type(e).__name__
 
-        @precondition(lambda self: self.case is not None)
+        @precondition(lambda self: self.case is not None and "A" not in self.pending)
         @rule(k=st.integers(1, 4))
         def step_A(self, k):
             for _ in range(k):
                 self._step("A")
 
-        @precondition(lambda self: self.case is not None)
+        @precondition(lambda self: self.case is not None and "B" not in self.pending)
         @rule(k=st.integers(1, 4))
         def step_B(self, k):
             for _ in range(k):
                 self._step("B")
 
+        # finer grain: the other instance is called between an instance's pull and its receive_reward
+        def _pull(self, who):
+            if self.dead:
+                return
+            n = gen.budget_of(self.case[who]["algo"])
+            if len(self.pts[who]) >= min(n, 90):
+                return
+            self.case["schedule"] += who.lower()
+            try:
+                pt = self.sess[who].pull()
+                self.pending[who] = (pt, self.sess[who].reward_for(pt))
+            except Exception as e:  # noqa: BLE001
+                self.dead = "exception:" + type(e).__name__
+
+        def _recv(self, who):
+            if self.dead:
+                return
+            self.case["schedule"] += {"A": "x", "B": "y"}[who]
+            pt, r = self.pending.pop(who)
+            try:
+                self.sess[who].receive(r)
+                self.pts[who].append([repr(x) for x in pt] if isinstance(pt, list) else repr(pt))
+            except Exception as e:  # noqa: BLE001
+                self.dead = "exception:" + type(e).__name__
+
+        @precondition(lambda self: self.case is not None and "A" not in self.pending)
+        @rule()
+        def pull_A(self):
+            self._pull("A")
+
+        @precondition(lambda self: self.case is not None and "A" in self.pending)
+        @rule()
+        def receive_A(self):
+            self._recv("A")
+
+        @precondition(lambda self: self.case is not None and "B" not in self.pending)
+        @rule()
+        def pull_B(self):
+            self._pull("B")
+
+        @precondition(lambda self: self.case is not None and "B" in self.pending)
+        @rule()
+        def receive_B(self):
+            self._recv("B")
+
         def teardown(self):
+            for who in list(self.pending):
+                self._recv(who)  # finish open rounds so that the history is well formed
             self.stack.close()
             if self.case is None:
                 return
@@ -286,6 +359,16 @@ LAWS = ["peak", "peakpos", "bump", "peak", "bump", "noise", "ties"]
 
 
 @st.composite
+def repeat_cases(draw, tier):
+    quick = tier == "quick"
+    c = draw(gen.run_case(T_max=150 if quick else 600, laws=LAWS, poo_ok_only=True, gpo_ok_only=True, script_prob=0.0,
+                          T_min=5, n_range=(100, 300) if quick else (100, 1000)))
+    if draw(st.integers(0, 11)) == 0:
+        c["descending"] = draw(st.integers(1, 3))
+    return c
+
+
+@st.composite
 def process_cases(draw):
     c = draw(gen.run_case(T_max=80, laws=LAWS, poo_ok_only=True, gpo_ok_only=True, script_prob=0.0, T_min=20))
     c["process"] = True
@@ -294,8 +377,6 @@ def process_cases(draw):
 
 def run_shard(ctx):
     quick = ctx.tier == "quick"
-    ctx.drive("repeat", gen.run_case(T_max=150 if quick else 600, laws=LAWS, poo_ok_only=True, gpo_ok_only=True, script_prob=0.0,
-                                     T_min=5, n_range=(100, 300) if quick else (100, 1000)),
-              check_case, ctx.budget(2400, 30000))
+    ctx.drive("repeat", repeat_cases(ctx.tier), check_case, ctx.budget(2400, 30000))
     ctx.drive_machine("interleave", make_machine(ctx.col, "interleave"), ctx.budget(1600, 16000), steps=20 if quick else 40)
     ctx.drive("process", process_cases(), check_case, ctx.budget(96, 960))
